@@ -141,15 +141,6 @@ func sameList(got message.Options, m *model) bool {
 	return true
 }
 
-// sameOptions compares two option lists (used for "queries do not modify").
-func snapshotOf(o message.Options) []ent {
-	s := make([]ent, len(o))
-	for i, e := range o {
-		s[i] = ent{e.ID, cp(e.Value)}
-	}
-	return s
-}
-
 func isNotFound(err error) bool {
 	return err == message.ErrOptionNotFound || errors.Is(err, message.ErrOptionNotFound)
 }
